@@ -1,6 +1,8 @@
 import Invoke.Lemmas.RunnerStdin
 import Invoke.Lemmas.RunnerReuse
 import Invoke.Lemmas.Encode
+import Invoke.Lemmas.Utf8Roundtrip
+import Invoke.Lemmas.Decode
 /-! # C13 — input-stream text reaches the command complete, in order, then EOF
 
 Stated over EVERY schedule (`Inv.run` over arbitrary lists of thread steps and environment
@@ -175,6 +177,41 @@ theorem utf16_marker_once (c : Nat) (cs : List Nat) :
 
 example : utf16enc.encodeWhole [0x61, 0xF1, 0x1F600] = [0xFF, 0xFE, 0x61, 0, 0xF1, 0, 0x3D, 0xD8, 0x00, 0xDE] := by decide
 example : utf8enc.encodeWhole [0x61, 0xF1, 0x20AC, 0x1F600] = [0x61, 0xC3, 0xB1, 0xE2, 0x82, 0xAC, 0xF0, 0x9F, 0x98, 0x80] := by decide
+
+/-! ## byte-mode input: decode, then encode -/
+
+/-- BYTE INPUT (UTF-8): an input stream opened in byte mode that carries the UTF-8 encoding of a text, read in ANY
+    pieces (reads may end inside a character): decoding the reads with one incremental decoder (`read_our_stdin`, which
+    never flushes it) and encoding the resulting text (`write_proc_stdin`) hands the command exactly the bytes of the
+    stream.  (A stream that is NOT the encoding of a text is outside the property: undecodable bytes arrive as U+FFFD,
+    the bytes of a character the stream ends in the middle of are dropped - `truncated_tail_is_dropped` - and the
+    correspondence compares model and code on such streams too.) -/
+theorem byte_input_reaches_command_verbatim (cs : List Nat) (hv : ∀ c ∈ cs, ValidCp c) (reads : List (List Byte))
+    (hr : reads.flatten = cs.flatMap u8bytes) :
+    utf8enc.encodeWhole ((utf8.decodeUnflushed reads).map Char.toNat) = reads.flatten := by
+  have hd : utf8.decodeUnflushed reads = cs.map Char.ofNat := by
+    simp only [Decoder.decodeUnflushed, Decoder.runChunks_flatten, hr]
+    show (utf8.run {} (cs.flatMap u8bytes)).2 = _
+    rw [utf8_run_encoded cs hv]
+  have hm : (cs.map Char.ofNat).map Char.toNat = cs := by
+    rw [List.map_map]
+    conv => rhs; rw [← List.map_id cs]
+    exact List.map_congr_left (fun c hc => toNat_ofNat_valid c (hv c hc))
+  rw [hd, hm, utf8enc_whole, hr]
+
+/-- what the code does with a stream ending inside a character: nothing is forwarded for the dangling bytes -/
+theorem truncated_tail_is_dropped :
+    utf8enc.encodeWhole ((utf8.decodeUnflushed [[0x61], [0xC3]]).map Char.toNat) = [0x61] := by decide
+
+/-- the hypotheses are satisfiable with reads that end inside characters: "añ€😀" read as 2 + 3 + 4 + 1 bytes -/
+example : (∀ c ∈ [0x61, 0xF1, 0x20AC, 0x1F600], ValidCp c) ∧
+    [[0x61, 0xC3], [0xB1, 0xE2, 0x82], [0xAC, 0xF0, 0x9F, 0x98], [0x80]].flatten = [0x61, 0xF1, 0x20AC, 0x1F600].flatMap u8bytes ∧
+    utf8enc.encodeWhole ((utf8.decodeUnflushed [[0x61, 0xC3], [0xB1, 0xE2, 0x82], [0xAC, 0xF0, 0x9F, 0x98], [0x80]]).map Char.toNat)
+      = [0x61, 0xC3, 0xB1, 0xE2, 0x82, 0xAC, 0xF0, 0x9F, 0x98, 0x80] := by
+  refine ⟨?_, by decide, by decide⟩
+  intro c hc
+  simp at hc
+  rcases hc with rfl | rfl | rfl | rfl <;> (unfold ValidCp; omega)
 
 /-! ## runs on one runner object -/
 
